@@ -172,6 +172,26 @@ theorem renumFrom_map {β : Type} (h : Pair → β) (hf : ∀ p k, h (setLoc p k
     congr 1
     exact hf p k
 
+/-- after renumbering from `k` the local numbers are `k, k+1, …` in iteration order -/
+theorem renumFrom_locs : ∀ (k : Nat) (xs : List Pair), (renumFrom k xs).map (·.l.loc) = List.range' k xs.length
+  | _, [] => rfl
+  | k, p :: ps => by
+    simp only [renumFrom, List.map_cons, List.length_cons, List.range'_succ]
+    rw [renumFrom_locs (k+1) ps]
+    rfl
+
+theorem maxLocal_renumFrom : ∀ (xs : List Pair) (k : Nat) (m : Nat), xs ≠ [] → m ≤ k →
+    maxLocal (renumFrom k xs) m = k + xs.length - 1
+  | [], _, _, h, _ => absurd rfl h
+  | p :: ps, k, m, _, hm => by
+    cases ps with
+    | nil => simp only [renumFrom, maxLocal, setLoc, List.length_cons, List.length_nil]; omega
+    | cons q qs =>
+      have ih := maxLocal_renumFrom (q :: qs) (k+1) (max m k) (by simp) (by omega)
+      show maxLocal (renumFrom (k+1) (q :: qs)) (max m k) = _
+      rw [ih]
+      simp only [List.length_cons]; omega
+
 /-- number of entries strictly before `p` in the order of the code's comparison -/
 def rank (p : Pair) (xs : List Pair) : Nat := xs.countP (fun q => before q p)
 
